@@ -325,6 +325,9 @@ impl CaseRun {
             assert!(b.parent < b.id && self.by_id.contains_key(&b.parent), "blk {}: parent {} must be declared before and be smaller", b.id, b.parent);
         }
         out.op(&blk_line(&b), "ok");
+        if std::env::var("VERIF_C01_LOG").is_ok() {
+            eprintln!("[map] {} {:#x}", b.id, b.hash);
+        }
         match b.kind {
             Kind::Ctx => out.count("blk-invalid-ctx"),
             Kind::Nc => out.count("blk-invalid-nc"),
@@ -514,9 +517,36 @@ impl CaseRun {
         }
     }
 
+    /// some block that cannot pass verification (itself or an ancestor is invalid in the declared
+    /// tree) was delivered at least twice in this case: the necessary condition of finding F7
+    /// (a second queued copy of a block whose first copy failed and was deleted)
+    fn failed_block_delivered_twice(&self) -> bool {
+        let mut seen = HashSet::new();
+        for id in &self.arrival {
+            if !seen.insert(*id) {
+                let mut b = self.get(*id);
+                loop {
+                    if b.id == 0 {
+                        break;
+                    }
+                    if !b.kind.nc() || !b.kind.ok() {
+                        return true;
+                    }
+                    b = self.get(b.parent);
+                }
+            }
+        }
+        false
+    }
+
     fn hang(&mut self, out: &mut Out, op: &str, detail: &str) {
-        out.oracle_fail("hang", &format!("{op}: {detail}"));
-        out.op(op, "hang");
+        // a stalled pipeline is a violation either way; it is reported under the known-finding class
+        // only when the case contains the trigger of F7, so that any other stall stays a plain `hang`
+        let class = if self.failed_block_delivered_twice() { "pipeline-dead-after-duplicate-of-failed-block" } else { "hang" };
+        out.oracle_fail(class, &format!("{op}: {detail}"));
+        // no op line is written for the stalled operation (the model has no stalled state; the oracle
+        // failure above is what reports it); the rest of the case is skipped
+        let _ = op;
         self.dead = true;
     }
 
@@ -1016,7 +1046,107 @@ fn replay(out: &mut Out, ops: &[String], builder_base: &Path, node_base: &Path) 
     finish(&mut cur, out);
 }
 
+
+// ------------------------------------------------------------------------------------------------
+// suspected finding F7: a second queued copy of a block that fails verification (duplicate
+// delivery), or a child accepted while its parent was pending, waits behind more than 128 queued
+// blocks; when the first copy / the parent has been deleted the preload thread's
+// `get_block(..).expect("block stored")` (or the parent-header expect) panics and the pipeline stalls.
+// Burst order (one sender thread): O2..Ok (orphans, O1 missing), S1..S8, X, O1, C (child of X), X.
+// ------------------------------------------------------------------------------------------------
+
+fn f7_scenario(out: &mut Out, builder_base: &Path, node_base: &Path, attempt: u64, olen: usize, with_dup: bool) {
+    let cfg = NodeCfg { epoch_len: 1000, with_pool: false, ..Default::default() };
+    let consensus = make_consensus(&cfg);
+    let bdir = builder_base.join(format!("f7-{attempt}"));
+    let mut builder = ChainBuilder::new(consensus.clone(), &bdir);
+    builder.max_branch_stores = 4;
+    let mut blks = vec![genesis_blk(&consensus)];
+    let slen = 8usize;
+    // S chain 1..=slen
+    for id in 1..=slen {
+        let p = blks[id - 1].clone();
+        let b = build_blk(&mut builder, id, &p, Kind::from_flags(true, true), false);
+        blks.push(b);
+    }
+    // X = slen+1 (ctx-invalid child of S8), C = slen+2 (child of X)
+    let x = slen + 1;
+    let p = blks[slen].clone();
+    blks.push(build_blk(&mut builder, x, &p, Kind::from_flags(true, false), false));
+    let c = slen + 2;
+    let p = blks[x].clone();
+    blks.push(build_blk(&mut builder, c, &p, Kind::from_flags(true, true), true));
+    // O chain on genesis (one more block than delivered in the burst: the probe)
+    let o1 = slen + 3;
+    for i in 0..=olen {
+        let id = o1 + i;
+        let p = if i == 0 { blks[0].clone() } else { blks[id - 1].clone() };
+        let b = build_blk(&mut builder, id, &p, Kind::from_flags(true, true), i == olen);
+        blks.push(b);
+    }
+    let probe = o1 + olen;
+    drop(builder);
+    let _ = std::fs::remove_dir_all(&bdir);
+    let mut order: Vec<usize> = ((o1 + 1)..(o1 + olen)).collect();
+    order.extend(1..=slen);
+    order.push(x);
+    order.push(o1);
+    order.push(c);
+    if with_dup {
+        order.push(x);
+    }
+    let label = format!("el={} mode=burst thr=1 f7 attempt={} n={}", cfg.epoch_len, attempt, blks.len() - 1);
+    let case = out.begin_case(&label);
+    let mut run = CaseRun::start(&node_base.join(format!("f7c{case}")), &consensus, &cfg, 1);
+    for b in &blks {
+        run.declare(out, b.clone());
+    }
+    run.burst(out, &order);
+    out.count("f7-scenario");
+    if !run.dead {
+        // probe (not an op of the protocol): one more valid block extending the heaviest chain must
+        // get verified; if its callback is dropped un-called the verification pipeline is dead
+        let first = run.log.lock().unwrap().events.len();
+        let lb = run.lonely(probe);
+        let alive = run.node().controller().verif_process_lonely_block_sync(lb);
+        let waited = run.wait_quiescent();
+        let verdict = run.log.lock().unwrap().events[first..].iter().find(|(i, _)| *i == probe).map(|(_, v)| *v);
+        let tip_is_probe = run.node().tip_hash() == run.get(probe).block.hash();
+        if !alive || waited.is_err() || verdict != Some(Verdict::New) || !tip_is_probe {
+            out.count("f7-pipeline-dead");
+            out.oracle_fail(
+                "pipeline-dead-after-duplicate-of-failed-block",
+                &format!(
+                    "after `burst {}` a further valid block extending the tip is never verified: chain service alive={} quiescence={:?} callback={:?} tip_is_probe={} (preload thread panicked in get_block: the first copy of block {} failed verification and was deleted while its second queued copy was still behind >128 queued blocks)",
+                    show_ids(&order), alive, waited, verdict, tip_is_probe, x
+                ),
+            );
+            run.dead = true;
+        }
+    }
+    run.finish(out);
+}
+
+/// Debugging aid: `VERIF_C01_LOG=info|debug` prints the node's log lines (with thread names) on stderr.
+struct StderrLog;
+impl ckb_logger::internal::Log for StderrLog {
+    fn enabled(&self, m: &ckb_logger::internal::Metadata) -> bool {
+        m.target().starts_with("ckb")
+    }
+    fn log(&self, r: &ckb_logger::internal::Record) {
+        if self.enabled(r.metadata()) {
+            eprintln!("[{}] {} {}", std::thread::current().name().unwrap_or("?"), r.level(), r.args());
+        }
+    }
+    fn flush(&self) {}
+}
+static STDERR_LOG: StderrLog = StderrLog;
+
 pub fn run(opts: &Opts) {
+    if let Ok(l) = std::env::var("VERIF_C01_LOG") {
+        let _ = ckb_logger::internal::set_logger(&STDERR_LOG);
+        ckb_logger::internal::set_max_level(if l == "debug" { ckb_logger::internal::LevelFilter::Debug } else { ckb_logger::internal::LevelFilter::Info });
+    }
     let mut out = Out::new(&opts.out);
     let builder_base = scratch_dir(&opts.out, "c01-b");
     let node_base = scratch_dir(&opts.out, "c01-n");
@@ -1024,6 +1154,12 @@ pub fn run(opts: &Opts) {
     if let Some(p) = &opts.replay {
         let ops = read_replay_ops(p);
         replay(&mut out, &ops, &builder_base, &node_base);
+    } else if opts.extra.iter().any(|a| a == "f7" || a == "f7ctl") {
+        // `f7`: with the duplicate; `f7ctl`: the same history without it (control: must pass)
+        let with_dup = opts.extra.iter().any(|a| a == "f7");
+        for attempt in 0..(3 * opts.scale) {
+            f7_scenario(&mut out, &builder_base, &node_base, attempt, 140, with_dup);
+        }
     } else {
         generate(&mut out, opts, &builder_base, &node_base);
     }
